@@ -385,6 +385,43 @@ def run(ctx):
     for c, v in zip(g, gv):
         if v is not None:
             ctx.fail(v["what"] + " (grid: %s)" % json.dumps(c)[:200], v["replay"], detail={"case": c})
+    # (scaledperm) anonymous scalings: two scalings of ONE named unit and one (or two) of another unit of the same dimension, every order and both groupings --
+    # "algebraically equal products ... produce the identical type".  Triples containing two units of equal magnitude are skipped (documented ordering limitation).
+    import itertools, random as _r
+    from fractions import Fraction as F
+    SP_BASES = {"Feet": F(3048, 10000), "Inches": F(254, 10000), "Yards": F(9144, 10000), "Meters": F(1), "Miles": F(1609344, 1000), "Fathoms": F(18288, 10000)}
+    SP_BASES = {k: v for k, v in SP_BASES.items() if k in model.UNIT_NAMES}
+    SP_SC = [("mag<2>()", F(2)), ("mag<3>()", F(3)), ("mag<5>()", F(5)), ("(mag<7>() / mag<2>())", F(7, 2)), ("(mag<1>() / mag<3>())", F(1, 3)), ("mag<1000>()", F(1000))]
+    sp_all = []
+    for X, Y in itertools.permutations(sorted(SP_BASES), 2):
+        for (s1, f1), (s2, f2) in itertools.combinations(SP_SC, 2):
+            for s3, f3 in SP_SC:
+                mags = [SP_BASES[X] * f1, SP_BASES[X] * f2, SP_BASES[Y] * f3]
+                if len(set(mags)) == 3:
+                    sp_all.append((X, s1, s2, Y, s3))
+    _r.Random(ctx.seed * 7919 + 13).shuffle(sp_all)   # a pure function of VERIF_SEED
+    sp_sel = sp_all[:96] if quick else sp_all
+    sp_items = []
+    for k, (X, s1, s2, Y, s3) in enumerate(sp_sel):
+        b = "constexpr auto a = %s{} * %s; constexpr auto b = %s{} * %s; constexpr auto c = %s{} * %s;\n" % (X, s1, X, s2, Y, s3)
+        b += "using Ref = decltype(a * b * c);\n"
+        for e in ["a * c * b", "b * a * c", "b * c * a", "c * a * b", "c * b * a", "a * (b * c)", "(c * a) * b", "c * (b * a)", "b * (a * c)"]:
+            b += 'static_assert(std::is_same<decltype(%s), Ref>::value, "scaledperm: %s is not the same type as a * b * c");\n' % (e, e)
+        b += 'static_assert(std::is_same<decltype((a * b * c) / (c * b * a)), UnitProductT<>>::value, "scaledperm: (a*b*c)/(c*b*a) does not cancel");\n'
+        b += 'static_assert(std::is_same<decltype((a * b) / (b * c) * (c / a)), UnitProductT<>>::value, "scaledperm: (a*b)/(b*c)*(c/a) does not cancel");\n'
+        sp_items.append((model.ALL_INCLUDES + "\n#include <type_traits>\nusing namespace au;\n", b, core.CONFIGS[(ctx.seed + k) % 6]))
+    for (X, s1, s2, Y, s3), it, v in zip(sp_sel, sp_items, progs.judge_positive(ctx, sp_items, group=12, tag="c02sp")):
+        ctx.count(11)
+        if v.ok:
+            ctx.nontrivial({"kind": "scaledperm", "x": X, "s": [s1, s2], "y": Y, "t": s3})
+        elif v.inconclusive:
+            ctx.inconclusive += 1
+        elif progs.is_documented_ordering_limitation(v.cr):
+            ctx.bump("excluded_documented_limitation_hit")
+        else:
+            ctx.fail("C02 scaledperm %s*%s, %s*%s, %s*%s [%s]: %s" % (X, s1, X, s2, Y, s3, core.cfg_name(it[2]), v.cr.first_error()),
+                     {"mode": "syntax", "expect": "ok", "src": v.src, "cfg": list(it[2])})
+    ctx.cov["scaledperm_cases"] = len(sp_items)
     n_ex = 40 if quick else 200
     cache = hyp.run_batches(ctx, case(), judge, n_ex, 48, label="c02")
     judged = [json.loads(k) for k, (s, v) in cache.items() if s == "judged"]
